@@ -9,3 +9,6 @@ trap 'git -C /repo checkout -- .' EXIT
 for PROP in "$@"; do
   (cd /verif && timeout 1800 ./check $PROP --tier quick 2>&1 | grep -E "^VIOLATION|^\[C|^MACHINERY|signature:|what:" | cut -c1-400 | head -14)
 done
+# rebuild the harness on the clean tree: the binaries under /verif/target were just built against the patched sources
+git -C /repo checkout -- .
+(cd /verif/harness && CARGO_NET_OFFLINE=true cargo build --offline --release -p h_uplc -p h_lang -p h_proj >/dev/null 2>&1)
